@@ -854,3 +854,234 @@ Proof.
     + apply le_emit; auto. apply le_refl.
   - destruct m as [[v|c]|]; try lout_tac. exfalso. eapply NC; reflexivity.
 Qed.
+
+(* ------------------------------------------------------------------ *)
+(** * Frames and frame pops in the continuation *)
+
+Definition calm (m : mop) : bool :=
+  is_work m && match m with MRunItem _ | MToReady _ => false | _ => true end.
+
+Inductive endm : fin -> ctx -> Prop :=
+| em_none : endm FNone XStk
+| em_meth a : endm (FMeth a) (XCx a false)
+| em_prep a r : endm (FPrep a r) (XCx a true).
+
+(* the frame pops of the continuation, top first, against the frame contexts: nested frames have no Core access;
+   the bottom one belongs to a running item or to a top-level [do] *)
+Inductive fr_ok : list mop -> list ctx -> Prop :=
+| fo_nil : fr_ok [] []
+| fo_end u f c : endm f c -> fr_ok [MEndBody u f] [c]
+| fo_do : fr_ok [MPopFrame] [XStk]
+| fo_nest ps cs : fr_ok ps cs -> fr_ok (MPopFrame :: ps) (XNone :: cs).
+
+Definition FK (k : list mop) (cs : list ctx) : Prop :=
+  exists w1 w2, k = w1 ++ w2 /\ forallb calm w1 = true /\ poppers w2 = [] /\ fr_ok (poppers w1) cs.
+
+Lemma fr_ok_nested ps cs : fr_ok ps cs -> nested_ok cs.
+Proof. intros H. induction H; simpl; auto. destruct cs; auto. Qed.
+
+Lemma calm_not_popper_pre pre : forallb calm pre = true -> True. Proof. auto. Qed.
+
+Lemma quiet_calm l : quiet l -> forallb calm l = true.
+Proof.
+  intros [A B]. induction l as [|m l IH]; simpl in *; auto.
+  apply andb_prop in A as [A1 A2]. apply orb_false_elim in B as [B1 B2].
+  rewrite IH; auto. unfold calm. rewrite A1. destruct m; simpl in *; auto; discriminate.
+Qed.
+
+(* the head is replaced by calm micro-ops without frame pops, frames unchanged *)
+Lemma FK_eff m k0 cs pre :
+  FK (m :: k0) cs -> is_popper m = false -> forallb calm pre = true -> poppers pre = [] -> FK (pre ++ k0) cs.
+Proof.
+  intros (w1 & w2 & E & C & P & F) NP CP PP. destruct w1 as [|x w1]; simpl in E.
+  - subst w2. exists pre, k0. split; auto. split; auto. split.
+    + simpl in P. rewrite NP in P. exact P.
+    + rewrite PP. exact F.
+  - inversion E; subst. exists (pre ++ w1), w2. rewrite app_assoc. split; auto.
+    simpl in C. apply andb_prop in C as [_ C]. split. rewrite forallb_app, CP, C. reflexivity.
+    split; auto. rewrite poppers_app, PP. simpl in F. rewrite NP in F. exact F.
+Qed.
+
+(* ... one nested frame pushed *)
+Lemma FK_push m k0 cs pre :
+  FK (m :: k0) cs -> is_popper m = false -> forallb calm pre = true -> poppers pre = [MPopFrame] ->
+  FK (pre ++ k0) (XNone :: cs).
+Proof.
+  intros (w1 & w2 & E & C & P & F) NP CP PP. destruct w1 as [|x w1]; simpl in E.
+  - subst w2. exists pre, k0. split; auto. split; auto. split.
+    + simpl in P. rewrite NP in P. exact P.
+    + rewrite PP. apply fo_nest. exact F.
+  - inversion E; subst. exists (pre ++ w1), w2. rewrite app_assoc. split; auto.
+    simpl in C. apply andb_prop in C as [_ C]. split. rewrite forallb_app, CP, C. reflexivity.
+    split; auto. rewrite poppers_app, PP. simpl. apply fo_nest. simpl in F. rewrite NP in F. exact F.
+Qed.
+
+(* a micro-op that is not calm sits below every frame *)
+Lemma FK_flat m k0 cs : FK (m :: k0) cs -> calm m = false -> cs = [] /\ poppers k0 = [] /\ is_popper m = false.
+Proof.
+  intros (w1 & w2 & E & C & P & F) NC. destruct w1 as [|x w1]; simpl in E.
+  - subst w2. simpl in F. inversion F; subst. simpl in P. destruct (is_popper m); [discriminate|]. auto.
+  - inversion E; subst. simpl in C. rewrite NC in C. discriminate.
+Qed.
+
+Lemma FK_of_flat k : poppers k = [] -> FK k [].
+Proof. intros P. exists [], k. repeat split; auto. constructor. Qed.
+
+Lemma FK_flat_push m k0 cs pre : FK (m :: k0) cs -> calm m = false -> poppers pre = [] -> FK (pre ++ k0) [].
+Proof.
+  intros F NC PP. destruct (FK_flat _ _ _ F NC) as (_ & P & _). apply FK_of_flat. rewrite poppers_app, PP, P. reflexivity.
+Qed.
+
+Lemma fr_ok_pop_inv ps cs : fr_ok (MPopFrame :: ps) cs ->
+  (ps = [] /\ cs = [XStk]) \/ (exists cs', cs = XNone :: cs' /\ fr_ok ps cs').
+Proof. intros H. inversion H; subst; eauto. Qed.
+
+Lemma fr_ok_end_inv u f ps cs : fr_ok (MEndBody u f :: ps) cs -> ps = [] /\ exists c, cs = [c] /\ endm f c.
+Proof. intros H. inversion H; subst; eauto. Qed.
+
+(* a frame pop at the head *)
+Lemma FK_pop k0 cs : FK (MPopFrame :: k0) cs ->
+  exists c cs', cs = c :: cs' /\ (forall pre, forallb calm pre = true -> poppers pre = [] -> FK (pre ++ k0) cs').
+Proof.
+  intros (w1 & w2 & E & C & P & F). destruct w1 as [|x w1]; simpl in E.
+  - subst w2. simpl in P. discriminate.
+  - inversion E; subst. simpl in F. simpl in C.
+    apply fr_ok_pop_inv in F as [[PW ->]|(cs' & -> & F)].
+    + exists XStk, []. split; auto. intros pre CP PP. exists (pre ++ w1), w2. rewrite app_assoc. split; auto.
+      split. rewrite forallb_app, CP, C. reflexivity. split; auto. rewrite poppers_app, PP, PW. constructor.
+    + exists XNone, cs'. split; auto. intros pre CP PP. exists (pre ++ w1), w2. rewrite app_assoc. split; auto.
+      split. rewrite forallb_app, CP, C. reflexivity. split; auto. rewrite poppers_app, PP. exact F.
+Qed.
+
+(* the end of a body at the head: its frame is the only one *)
+Lemma FK_end u f k0 cs : FK (MEndBody u f :: k0) cs -> exists c, cs = [c] /\ endm f c /\ poppers k0 = [].
+Proof.
+  intros (w1 & w2 & E & C & P & F). destruct w1 as [|x w1]; simpl in E.
+  - subst w2. simpl in P. discriminate.
+  - inversion E; subst. simpl in F. apply fr_ok_end_inv in F as [PW (c & -> & EM)].
+    exists c. repeat split; auto. rewrite poppers_app, P, PW. reflexivity.
+Qed.
+
+(* ------------------------------------------------------------------ *)
+(** * Termination notifications sit right behind their Close record *)
+
+Inductive guarded (s : st) : list mop -> Prop :=
+| g_nil : guarded s []
+| g_pair a c r k x : nshape a r -> aget (actors s) a = Some x -> guarded s k ->
+    guarded s (MLogClose a c :: MRetInvoke r (Some (MCause c)) :: k)
+| g_other m k : plain20 m = true -> guarded s k -> guarded s (m :: k).
+
+Lemma guarded_app s pre k : forallb plain20 pre = true -> guarded s k -> guarded s (pre ++ k).
+Proof.
+  induction pre as [|m pre IH]; simpl; auto. intros H G. apply andb_prop in H as [H1 H2]. apply g_other; auto.
+Qed.
+
+Lemma guarded_pers s s' k : pers s s' -> guarded s k -> guarded s' k.
+Proof.
+  intros P G. induction G.
+  - constructor.
+  - destruct (P _ _ H0) as (x' & A & _). eapply g_pair; eauto.
+  - apply g_other; auto.
+Qed.
+
+Lemma guarded_tail s m k : plain20 m = true -> guarded s (m :: k) -> guarded s k.
+Proof. intros P G. inversion G; subst; auto. discriminate. Qed.
+
+Lemma guarded_app_inv s pre k : guarded s (pre ++ k) -> forallb plain20 pre = true -> guarded s k.
+Proof.
+  induction pre as [|m pre IH]; simpl; auto. intros G H. apply andb_prop in H as [H1 H2].
+  apply IH; auto. eapply guarded_tail; eauto.
+Qed.
+
+(* after the Close record: the notification is the very next observable event *)
+Definition pend (m : s20) (a : N) (c : cause) : Prop :=
+  if deliver20 m LOGLEVEL_CLOSE
+  then l_span m = true /\ exists id par, l_prev m = Some (ELog id LOGLEVEL_CLOSE par (marker_of c)) /\
+                                         forall i, nget (l_ids m) a = Some i -> i = id
+  else rest20 m.
+
+Definition G20 (m : s20) (k : list mop) (s : st) : Prop :=
+  (guarded s k /\ rest20 m) \/
+  (exists a c r k', k = MRetInvoke r (Some (MCause c)) :: k' /\ nshape a r /\ guarded s k' /\ pend m a c).
+
+Definition I20 (k : list mop) (s : st) : Prop :=
+  exists m, mon20 (tr s) = Some m /\ J m s /\ FK k (ctxs s) /\ G20 m k s.
+
+(* ------------------------------------------------------------------ *)
+(** * Steps *)
+
+Lemma lout_app s p s' l : lout s p s' -> poppers l = [] -> forallb plain20 l = true -> lout s (p ++ l) s'.
+Proof.
+  intros [E P Q|s1 loc E X P Q] PL QL.
+  - apply lo_eff; auto. rewrite poppers_app, P, PL; reflexivity. rewrite forallb_app, Q, QL; reflexivity.
+  - eapply lo_push; eauto. rewrite poppers_app, P, PL; reflexivity. rewrite forallb_app, Q, QL; reflexivity.
+Qed.
+
+Lemma J_push m s loc : J m s -> J m (push_frame s XNone loc).
+Proof.
+  intros [A B C D E F G H]. constructor; auto.
+  - change (ctxs (push_frame s XNone loc)) with (XNone :: ctxs s). rewrite body_of_push. exact G.
+  - change (ctxs (push_frame s XNone loc)) with (XNone :: ctxs s). apply nested_push. exact H.
+Qed.
+
+(* the quiet work micro-ops whose handlers are plain effects *)
+Definition lclass (m : mop) : bool :=
+  match m with
+  | MActs _ | MDropItem _ | MDropInner _ | MDropVal _ | MDropOwn _ _ | MDropRef _
+  | MValDrop _ | MDelDone _ _ | MOrphNew _ | MOrphDrop _ => true
+  | MRetInvoke _ (Some (MCause _)) => false
+  | MRetInvoke _ _ => true
+  | _ => false
+  end.
+
+Lemma lclass_lout m s pre s' : lclass m = true -> handle m s = (pre, s') -> lout s pre s'.
+Proof.
+  intros C H. destruct m; try discriminate C; simpl in H.
+  - destruct l as [|a l].
+    + inversion H; subst. apply lo_eff; try reflexivity. apply le_refl.
+    + destruct (do_act a s) as [p s1] eqn:E. inversion H; subst. apply lout_app; try reflexivity. eapply do_act_lout; eauto.
+  - destruct c as [u i k caps q]. destruct k; simpl in H; inversion H; subst; apply lo_eff; try reflexivity; try apply le_refl.
+    + apply le_emit; [apply le_refl | reflexivity].
+    + apply poppers_drops.
+    + apply plain_drops.
+  - inversion H; subst. apply lo_eff; [apply le_emit; [apply le_refl | reflexivity] | apply poppers_drops | apply plain_drops].
+  - eapply drop_val_lout; eauto.
+  - eapply drop_own_lout; eauto.
+  - eapply drop_ref_lout; eauto.
+  - eapply ret_invoke_plain; eauto. intros c0 ->. destruct r. discriminate C.
+  - inversion H; subst. apply lo_eff; try reflexivity. apply le_emit; [apply le_refl | reflexivity].
+  - inversion H; subst. apply lo_eff; try reflexivity. apply le_emit; [apply le_refl | reflexivity].
+  - inversion H; subst. apply lo_eff; try reflexivity. apply le_emit; [apply le_refl | reflexivity].
+  - inversion H; subst. apply lo_eff; try reflexivity. apply le_emit; [apply le_refl | reflexivity].
+Qed.
+
+Lemma lclass_facts m : lclass m = true -> qmop m = true /\ plain20 m = true /\ is_popper m = false.
+Proof.
+  destruct m; try discriminate; intros H; repeat split; auto.
+Qed.
+
+Lemma qmop_calm_pre m s pre s' : qmop m = true -> handle m s = (pre, s') -> forallb calm pre = true.
+Proof. intros Q H. apply quiet_calm. eapply handle_qmop; eauto. Qed.
+
+Lemma ctxs_push s c loc : ctxs (push_frame s c loc) = c :: ctxs s.
+Proof. reflexivity. Qed.
+
+Lemma I20_lout mo k0 s pre s' m :
+  plain20 mo = true -> is_popper mo = false -> forallb calm pre = true -> lout s pre s' ->
+  mon20 (tr s) = Some m -> J m s -> FK (mo :: k0) (ctxs s) -> guarded s (mo :: k0) -> rest20 m ->
+  Z.of_nat (length (tr s')) < BOUND -> I20 (pre ++ k0) s'.
+Proof.
+  intros PL NP CP LO MM JJ FF GG RR BB.
+  destruct LO as [E P Q|s1 loc E X P Q].
+  - destruct (leff_J _ _ E m MM JJ RR BB) as (m1 & M1 & J1 & R1 & P1).
+    exists m1. split; auto. split; auto. split.
+    + rewrite (leff_ctxs _ _ E). eapply FK_eff; eauto.
+    + left. split; auto. apply guarded_app; auto. eapply guarded_pers; eauto. eapply guarded_tail; eauto.
+  - subst s'. assert (B1 : Z.of_nat (length (tr s1)) < BOUND) by exact BB.
+    destruct (leff_J _ _ E m MM JJ RR B1) as (m1 & M1 & J1 & R1 & P1).
+    exists m1. split; auto. split. apply J_push; auto. split.
+    + rewrite ctxs_push, (leff_ctxs _ _ E). eapply FK_push; eauto.
+    + left. split; auto. apply guarded_app; auto. eapply guarded_pers with (s := s1).
+      * apply pers_same. reflexivity.
+      * eapply guarded_pers; eauto. eapply guarded_tail; eauto.
+Qed.
